@@ -85,6 +85,12 @@ class ClassGen:
         if r.random() < 0.35:
             stmts.append(('rule', 'Wrap', ['p'], ('seq', [('str', '<<'), ('ref', 'p'), ('str', '>>')])))
             forms.append(('star', ('alt', [('call', 'Wrap', [('ref', 'Item')]), ('ref', 'Again')])))
+        if r.random() < 0.4:
+            # classes that take parameters: a parser parameter, and a parser plus a value parameter
+            stmts.append(('class', 'Brace', ['p'], [('field', 'o', ('str', '{')), ('field', 'v', ('opt', ('ref', 'p'))), ('field', 'c', ('str', '}'))]))
+            stmts.append(('class', 'Tagged', ['p', 't'], [('field', 'v', ('right', ('str', '='), ('ref', 'p'))), ('field', 'tag', ('py', 't'))]))
+            forms.append(('star', ('alt', [('call', 'Brace', [('ref', 'Item')]), ('call', 'Tagged', [('ref', 'Item'), ('py', "'k'")]),
+                                           ('call', 'Brace', [('call', 'Brace', [('ref', 'Num')])]), ('ref', 'Again')])))
         if r.random() < 0.35:
             stmts.append(('rule', 'Expr', None, ('optable', ('ref', 'Item'), [
                 ('postfix', [('str', '!')]), ('prefix', [('str', '-')]), ('left', [('str', '*')]), ('left', [('str', '+')])])))
